@@ -4,6 +4,7 @@ import QtyModel.Generated.Astro
 import QtyModel.Generated.Synth
 import QtyModel.SIPrefix
 import QtyModel.Spec.SI
+import QtyModel.UnitSpec
 /-
   Line-protocol driver.
 
@@ -165,6 +166,34 @@ def parseQ (s : String) : Option (Nat × A) :=
     pure (i, a)
   | _ => none
 
+/-- one unit row of a registry dump: ident, name, symbol, prefix, scale, const:ok -/
+structure RegRow (A : Type) where
+  ident : String
+  name : Text
+  symbol : Text
+  pfx : Option String
+  scale : Option A
+  constOk : Bool
+
+def parseReg {A} (C : Codec A) (s : String) : Option (Nat × String × String × List (RegRow A)) :=
+  match s.splitOn " | " with
+  | head :: rows =>
+    match head.splitOn " " with
+    | [n, r, k] =>
+      let rs := rows.filterMap (fun row =>
+        match row.splitOn "," with
+        | [i, nm, sy, pf, sc, c] => do
+          let nm ← textOfHex ("h" ++ nm)
+          let sy ← textOfHex ("h" ++ sy)
+          pure { ident := i, name := nm, symbol := sy, pfx := if pf == "-" then none else some pf,
+                 scale := if sc == "-" then none else C.parse sc, constOk := c.endsWith ":ok" }
+        | _ => none)
+      if rs.length == rows.length then
+        some ((n.drop 2).toString.toNat?.getD 0, (r.drop 4).toString, (k.drop 5).toString, rs)
+      else none
+    | _ => none
+  | [] => none
+
 /-- parse `<6 bits>:<lt|eq|gt|none>` -/
 def parseCmp (s : String) : Option Oracle.CmpObs :=
   match s.splitOn ":" with
@@ -185,7 +214,9 @@ def step (line impl : String) : String × Verdict :=
   | ["reg", t] =>
     match W.find t with
     | none => ("no-such-type", .skip "type not in this back-end")
-    | some T => (regLine R C T, .ok)
+    | some T =>
+      let out := regLine R C T
+      (out, check (impl == out) "registry (iteration order, names, symbols, prefixes, scales, REF_UNIT, constants) differs from the stably sorted declaration")
   | ["conv", t, i, j, a] =>
     match W.find t, i.toNat?, j.toNat?, C.parse a with
     | some T, some i, some j, some a =>
@@ -318,6 +349,45 @@ def step (line impl : String) : String × Verdict :=
         (out, v)
       else bad
     | _, _, _, _, _ => bad
+  | ["spec", t] =>
+    match W.find t with
+    | none => ("no-such-type", .skip "type not in this back-end")
+    | some T =>
+      let out := regLine R C T
+      let qual : Text := if t.startsWith "A:" then [65, 58] ++ T.name else T.name
+      let v : Verdict :=
+        if t.startsWith "S:" || t == "AmountT" then .skip "not a predefined quantity"
+        else match parseReg C impl with
+        | none => .skip "unparsed impl output"
+        | some (_, _, _, rows) =>
+          let specRows := Spec.Units.rows.filter (fun r => r.qty == qual)
+          let bad := rows.filterMap (fun (row : RegRow A) =>
+            match specRows.find? (fun r => UnitSpec.spaced r.ident == row.name) with
+            | none => some (Text.toString row.name ++ " (no published definition)")
+            | some r =>
+              let symOk := r.symbol == row.symbol
+              let pfxOk := (r.pfx.map Text.toString) == row.pfx
+              let identOk := Text.toString (Case.upperCamel r.ident) == row.ident
+              let scaleOk : Bool :=
+                match r.kind, row.scale with
+                | .noScale, none => true
+                | .ref, some a => R.val a == some 1
+                | .defined, some a =>
+                  match UnitSpec.evalRow 12 r, R.val a with
+                  | some iv, some x =>
+                    if iv.lo == iv.hi && UnitSpec.terminating iv.lo then
+                      -- exact definition: the amount type's nearest value
+                      decide (ratAbs (x - iv.lo) ≤ M.E iv.lo)
+                    else decide (iv.lo * (1 - UnitSpec.relTol) ≤ x) && decide (x ≤ iv.hi * (1 + UnitSpec.relTol))
+                  | _, _ => false
+                | _, _ => false
+              if symOk && pfxOk && identOk && scaleOk then none
+              else some (Text.toString row.name))
+          let missing := specRows.length != rows.length
+          if bad.isEmpty && !missing then .ok
+          else .fail ("units not matching their published definition: " ++ ", ".intercalate bad
+                      ++ (if missing then " (unit count differs from the definition table)" else ""))
+      (out, v)
   | ["si", "iter"] =>
     let row (i : Text) : String :=
       s!"{Text.toString i}:h{hexOfText ((SIPrefix.name i).getD [])}:h{hexOfText ((SIPrefix.abbr i).getD [])}:{(SIPrefix.exp i).getD 999}"
